@@ -1462,6 +1462,7 @@ EGLPNUM_TYPENAME_QSLIB_INTERFACE int EGLPNUM_TYPENAME_QSchange_senses (
 	rval = EGLPNUM_TYPENAME_ILLlib_chgsense (p->lp, num, rowlist, sense);
 	CHECKRVALG (rval, CLEANUP);
 
+	p->factorok = 0;							/* logical coefficients and bounds changed */
 	free_cache (p);
 
 CLEANUP:
@@ -1543,6 +1544,7 @@ EGLPNUM_TYPENAME_QSLIB_INTERFACE int EGLPNUM_TYPENAME_QSchange_coef (
 	rval = EGLPNUM_TYPENAME_ILLlib_chgcoef (p->lp, rowindex, colindex, coef);
 	CHECKRVALG (rval, CLEANUP);
 
+	p->factorok = 0;							/* the basis matrix may have changed */
 	free_cache (p);
 
 CLEANUP:
